@@ -336,6 +336,25 @@ int main(int argc, char** argv) {
     f4.chunk = 128;
     f4.rule = "objects whose first key is x^p ESC y^q (p,q in 0..70, ESC in {\\u0041, \\/, \\n, \\\", \\\\}) followed by other members: lookups by the decoded key, below it, of the following member, and by near-miss keys";
     fams.push_back(f4);
+    // OK2: the same with VERY long keys (beyond any fixed-size scratch buffer): total length T around 256, every T in
+    // 440..560, around 1024, 4096, 65536; escape at the start, in the middle, at the end
+    static std::vector<std::pair<uint32_t, uint32_t>> OK2;
+    {
+      std::vector<uint32_t> Ts;
+      for (uint32_t t = 250; t <= 262; t++) Ts.push_back(t);
+      for (uint32_t t = 440; t <= 560; t++) Ts.push_back(t);
+      for (uint32_t b : {1024u, 2048u, 4096u, 16384u, 65536u})
+        for (int d = -8; d <= 8; d++) Ts.push_back(b + d);
+      for (uint32_t T : Ts)
+        for (uint32_t pp : {0u, 1u, 31u, T / 2, T - 33, T - 1, T}) OK2.push_back({pp, T - pp});
+    }
+    vr::Family f4b;
+    f4b.name = "OK2_very_long_escaped_keys";
+    f4b.count = (uint64_t)OK2.size() * 5;
+    f4b.group = "OK2";
+    f4b.chunk = 16;
+    f4b.rule = "as OK with keys of total length T in 250..262, every T in 440..560, and +-8 around 1024, 2048, 4096, 16384, 65536; the escape after 0, 1, 31, T/2, T-33, T-1, T plain bytes";
+    fams.push_back(f4b);
     static const char* kEsc[5] = {"\\u0041", "\\/", "\\n", "\\\"", "\\\\"};
     static const char* kDec[5] = {"A", "/", "\n", "\"", "\\"};
     check = [&, NN, NP](const vr::Family& f, uint64_t idx, vr::Ctx& ctx) {
@@ -450,7 +469,14 @@ int main(int argc, char** argv) {
       if (f.name[1] == 'K') {
         unsigned ek = (unsigned)(idx % 5);
         idx /= 5;
-        unsigned q = (unsigned)(idx % 71), p = (unsigned)(idx / 71);
+        unsigned q, p;
+        if (f.name[2] == '2') {
+          p = OK2[idx].first;
+          q = OK2[idx].second;
+        } else {
+          q = (unsigned)(idx % 71);
+          p = (unsigned)(idx / 71);
+        }
         std::string K = std::string(p, 'x') + kDec[ek] + std::string(q, 'y');
         std::string text = "{\"" + std::string(p, 'x') + kEsc[ek] + std::string(q, 'y') + "\":[1,{\"x\":2}],\"b\":3}";
         ref::Result r = ref::parse(text);
